@@ -730,6 +730,104 @@ def peer_failure_isolation(ctx, sync):
                 p.stop()
 
 
+def transient_failure_scenario(ctx):
+    """A real subscribed consumer; the transport fails exactly once (HTTP 503 for one notification). What the subscriber is
+    sent afterwards must not skip that report silently: the versions handed to the transport for one subscription and one
+    action are a gap-free run of the committed ones (the library ends a subscription that missed a report)."""
+    import sdc11073.pysoap.soapclient as sc
+    from sdc11073.pysoap.soapclient import HTTPReturnCodeError
+    import re
+    for fail_at in (1, 2):
+        p = lb.Provider(mdib_path=c02.MDIBS[0], start=True, role_providers=False, sync=True)
+        orig_send = sc.SoapClient._send_soap_request  # noqa: SLF001
+        log = []          # (version, 'ok' | 'failed') for EpisodicMetricReport notifications
+
+        def spy(self, path, xml, log_msg, _fail_at=fail_at):
+            if b'/EpisodicMetricReport' in xml:
+                m_ = re.search(rb'MdibVersion="(\d+)"', xml)
+                v = int(m_.group(1)) if m_ else -1
+                if len([1 for x in log if x[1] == 'ok']) == _fail_at and not any(x[1] == 'failed' for x in log):
+                    log.append((v, 'failed'))
+                    raise HTTPReturnCodeError(503, 'verif: service unavailable', None)
+                log.append((v, 'ok'))
+            return orig_send(self, path, xml, log_msg)
+        sc.SoapClient._send_soap_request = spy  # noqa: SLF001
+        cons = None
+        try:
+            cons = lb.Consumer(p, init_mdib=False, subscribe_reports=True)
+            m = p.mdib
+            w = tx.World(p, ctx.subrng('transient', fail_at))
+            h = w.states_of_kind('metric')[0]
+            committed = []
+            for i in range(5):
+                try:
+                    with m.metric_state_transaction() as mgr:
+                        w.mutate_state(mgr.get_state(h), 10 + i)
+                    committed.append(m.mdib_version)
+                except Exception as ex:  # noqa: BLE001
+                    ctx.fail('commit-raised-for-one-bad-subscriber', f'transient HTTP 503 of a subscriber: {type(ex).__name__}', {'transient_failure': fail_at})
+            w.close()
+            failed = [v for v, r in log if r == 'failed']
+            ok = [v for v, r in log if r == 'ok']
+            case = {'transient_failure': fail_at, 'committed_versions': committed, 'handed_to_transport': log}
+            later = [v for v in ok if failed and v > failed[0]]
+            if later:
+                ctx.fail('subscriber-missed-report',
+                         f'the notification for MdibVersion {failed[0]} failed (HTTP 503) and was never repeated, but the same subscription was '
+                         f'sent {later} afterwards: a silent gap', case)
+            if not failed:
+                ctx.fail('transient-failure-scenario-not-exercised', str(log), case)
+            ctx.case(case, nontrivial=True)
+            ctx.count('transient-failure-runs')
+        finally:
+            sc.SoapClient._send_soap_request = orig_send  # noqa: SLF001
+            if cons is not None:
+                cons.stop()
+            p.stop()
+
+
+def sequence_restart_scenario(ctx):
+    """The application starts a new sequence on a running MDIB (new SequenceId, next InstanceId, MdibVersion counted from 0
+    again or continued): every report after that carries the CURRENT version group, also when a version number repeats."""
+    import re
+    import uuid
+    for reset_version in (True, False):
+        p = lb.Provider(mdib_path=c02.MDIBS[1], start=False, role_providers=False)
+        try:
+            m = p.mdib
+            w = tx.World(p, ctx.subrng('restart', reset_version))
+            h = w.states_of_kind('metric')[0]
+            problems = []
+
+            def commit_and_check(label):
+                p.take_wire()
+                with m.metric_state_transaction() as mgr:
+                    w.mutate_state(mgr.get_state(h), len(label))
+                for msg in p.take_wire():
+                    body = msg.raw
+                    got = (int(re.search(rb'MdibVersion="(\d+)"', body).group(1)),
+                           re.search(rb'SequenceId="([^"]*)"', body).group(1).decode(),
+                           int(mi.group(1)) if (mi := re.search(rb'InstanceId="(\d+)"', body)) else None)
+                    want = (m.mdib_version, m.sequence_id, m.instance_id)
+                    if got != want or (msg.mdib_version, msg.sequence_id, msg.instance_id) != want:
+                        problems.append(f'{label}: {msg.short} carries {got}, the mdib is at {want}')
+            commit_and_check('first sequence')
+            m.sequence_id = uuid.uuid4().urn
+            m.instance_id = (m.instance_id or 0) + 1
+            if reset_version:
+                m.mdib_version = 0
+            commit_and_check('after the restart')
+            commit_and_check('after the restart, second commit')
+            case = {'sequence_restart': True, 'version_reset': reset_version}
+            if problems:
+                ctx.fail('report-version-group-wrong', '; '.join(problems[:3]), case)
+            ctx.case(case, nontrivial=True)
+            ctx.count('sequence-restart-runs')
+            w.close()
+        finally:
+            p.stop()
+
+
 def filter_forms_scenario(ctx):
     """The wse:Filter of a Subscribe is an xs:list of action URIs: any white space separates them. A real consumer subscribes
     over HTTP with its filter written with newlines / tabs / several blanks; after that every report kind of committed
@@ -895,6 +993,8 @@ def run(ctx):
     for sync in (True, False):
         peer_failure_isolation(ctx, sync)
     filter_forms_scenario(ctx)
+    transient_failure_scenario(ctx)
+    sequence_restart_scenario(ctx)
 
 
 def search(ctx):
@@ -912,6 +1012,10 @@ def replay(ctx, obj):
         wire_validity_scenario(ctx2)
     elif 'peer_failure' in case:
         peer_failure_isolation(ctx2, case['sync'])
+    elif 'sequence_restart' in case:
+        sequence_restart_scenario(ctx2)
+    elif 'transient_failure' in case:
+        transient_failure_scenario(ctx2)
     elif 'filter_form' in case:
         ctx2.tier = 'thorough'
         filter_forms_scenario(ctx2)
